@@ -1,6 +1,8 @@
 import os, sys
 sys.path.insert(0, os.path.join(os.path.dirname(os.path.abspath(__file__)), '..', 'lib'))
 import vlib, flow, gen_sync
+import gen_trans
+gen_trans.register('pmm_bitmap.json')   # translation of AllocFrame/FreeFrame (Gen/Trans_pmm_bitmap.v), for Props/C09_trans.v
 
 gen_sync.register(spin=True, skel=True)
 H = os.path.join(vlib.ROOT, 'harness/kernel/mm/pmm')
@@ -8,7 +10,7 @@ H = os.path.join(vlib.ROOT, 'harness/kernel/mm/pmm')
 
 class C09(flow.Spec):
     prop = 'C09'
-    props_files = ['theories/Props/C09.v', 'theories/Props/C09_examples.v', 'theories/Props/C09_tso.v', 'theories/Props/C09_tso_examples.v', 'theories/Props/C08.v']
+    props_files = ['theories/Props/C09.v', 'theories/Props/C09_examples.v', 'theories/Props/C09_tso.v', 'theories/Props/C09_tso_examples.v', 'theories/Props/C08.v', 'theories/Props/C09_trans.v']
     model_targets = ['theories/Sync/SkelRun.vo']
     pkg = 'mm/pmm'
     harness = [os.path.join(H, 'zz_verif_c09_test.go')]
